@@ -69,8 +69,9 @@ fn pair_of<T>(label: &str, var: &str, f: impl Fn(&str) -> Option<T>) -> Option<[
 fn parse_node(label: &str) -> Option<Node> {
     let num = |s: &str| s.parse::<usize>().ok();
     let st = |s: &str| Some(s.trim_matches('"').to_string());
+    let padded = format!("{label}\n");
     let flag = |var: &str| -> Option<bool> {
-        let v = between(&format!("{label}\n"), &format!("/\\ {var} = "), "\n")?;
+        let v = between(&padded, &format!("/\\ {var} = "), "\n")?;
         Some(v.trim() == "TRUE")
     };
     let last = between(label, "/\\ last = <<", ">>")?;
@@ -84,7 +85,7 @@ fn parse_node(label: &str) -> Option<Node> {
         _ => return None,
     };
     Some(Node {
-        n: num(between(&format!("{label}\n"), "/\\ n = ", "\n")?.trim())?,
+        n: num(between(&padded, "/\\ n = ", "\n")?.trim())?,
         oneway: flag("oneway")?,
         sl: flag("sl")?,
         pos: pair_of(label, "pos", num)?,
@@ -112,7 +113,7 @@ pub fn model_graph() -> Graph {
         machinery(&format!("TLC did not verify HsTurn.tla: {}", text.lines().rev().take(12).collect::<Vec<_>>().join(" | ")));
     }
     let stat = |after: &str| -> u64 {
-        text.lines().find(|l| l.contains(after)).and_then(|l| {
+        text.lines().rev().find(|l| l.contains(after)).and_then(|l| {
             let words: Vec<&str> = l.split_whitespace().collect();
             let k = after.split_whitespace().next().unwrap();
             words.iter().position(|w| *w == k).and_then(|i| words[..i].last().and_then(|x| x.parse().ok()))
@@ -135,7 +136,10 @@ pub fn model_graph() -> Graph {
             let to = r.split(|c: char| c == ' ' || c == ';' || c == '[').next().unwrap_or("");
             edges.push((head.to_string(), to.to_string()));
         } else if rest.starts_with("[label=\"") {
-            let lab = between(rest, "[label=\"", "\",").unwrap_or_else(|| machinery("dot: node label not terminated"));
+            // the label ends at the first `",tooltip=` / `",style` (an escaped quote inside the label is `\"`)
+            let body = &rest["[label=\"".len()..];
+            let end = [body.find("\",tooltip="), body.find("\",style")].into_iter().flatten().min().unwrap_or_else(|| machinery("dot: node label not terminated"));
+            let lab = &body[..end];
             let lab = lab.replace("\\n", "\n").replace("\\\"", "\"").replace("\\\\", "\\");
             let node = parse_node(&lab).unwrap_or_else(|| machinery(&format!("dot: cannot parse state {lab:?}")));
             ids.insert(head.to_string(), nodes.len());
@@ -293,6 +297,14 @@ impl Sess {
                 }
                 Ok(class(r))
             },
+            "tgarbage" => {
+                let r = match &mut self.ends[p] {
+                    End::T(t) => t.read_message(&[0x5a; 5], &mut out),
+                    End::S(t) => t.read_message(0, &[0x5a; 5], &mut out),
+                    _ => return Err("model reads a transport message before conversion".into()),
+                };
+                Ok(class(r))
+            },
             other => Err(format!("unknown model call {other}")),
         }
     }
@@ -364,7 +376,7 @@ pub fn replay_path(cfg: &Config, n: usize, sl: bool, path: &[Act]) -> Verdict {
     match r {
         Ok(Ok(v)) => v,
         Ok(Err(e)) => Verdict::Violation("TLA conformance: session could not be built".into(), e),
-        Err(p) => Verdict::Violation(format!("TLA conformance: panic while following a model path ({})", super::common::panic_msg(p)), String::new()),
+        Err(p) => Verdict::Violation(format!("TLA conformance: panic while following a model path ({})", crate::exec::panic_msg(p)), String::new()),
     }
 }
 
@@ -392,7 +404,7 @@ pub fn run(ctx: &Ctx, protos: &[Proto]) {
             *by_outcome.entry(format!("{}:{}", l.call, l.outcome)).or_insert(0) += 1;
         }
     }
-    for need in ["write:ok", "write:state", "read:ok", "read:state", "read:rej", "garbage:state", "garbage:rej", "convert:ok", "convert:state", "twrite:ok", "twrite:state", "tread:ok", "tread:state", "tread:rej"] {
+    for need in ["write:ok", "write:state", "read:ok", "read:state", "read:rej", "garbage:state", "garbage:rej", "convert:ok", "convert:state", "twrite:ok", "twrite:state", "tread:ok", "tread:rej", "tgarbage:state", "tgarbage:rej"] {
         if !by_outcome.contains_key(need) {
             machinery(&format!("the TLA+ state graph has no edge {need}: the model no longer exercises that rule"));
         }
@@ -437,7 +449,7 @@ pub fn run(ctx: &Ctx, protos: &[Proto]) {
 
 pub fn replay(case: &Value) -> Result<(), String> {
     let name = case["name"].as_str().ok_or("bad case")?;
-    let proto = Proto::parse(name).map_err(|e| format!("{e:?}"))?;
+    let proto = Proto::parse(name).ok_or("unknown protocol name")?;
     let path: Vec<Act> = case["path"]
         .as_array()
         .ok_or("bad case")?
